@@ -118,6 +118,11 @@ def verdicts(c):
             out.append(("violation", "silicon/" + (fp[0] if fp else "unparsable")))
         else:
             d = diff(fpost, npost)
+            if d and spec_ok:
+                # registers the specification reports as architecturally undefined (bsf/bsr of zero, 16-bit bswap, ...)
+                ps = parse_post(spec)
+                undef = {k for k, v in ps[1].items() if v == "?"}
+                d = [x for x in d if x not in undef]
             if d:
                 out.append(("violation", "silicon/" + what(d)))
     # the specification against silicon: a disagreement is a defect of the specification, not of falcon
